@@ -225,6 +225,29 @@ pub fn check_triple(t: &Triple, acc: Option<&mut Acc>) -> Vec<String> {
             acc.count("c09:follows_combined_update");
         }
     }
+    // one native account in both roles (a delegator's default withdraw address is itself): its hook account
+    // is then the accepted sender of both messages
+    {
+        let mut w = sc.w.clone();
+        let ch_now = w.query(&sc.q, "{\"config\":{}}").ok().and_then(|c| c.get("protocol_chain_config").map(|p| vs(p, "ibc_channel_id"))).unwrap_or_default();
+        let st = sc.staker.clone();
+        let upd = json!({"update_config": {"native_chain_config": {"account_address_prefix": cfg.native_prefix, "validator_address_prefix": cfg.val_prefix, "token_denom": NATIVE_DENOM, "validators": sc.validators, "unbonding_period": 10, "staker_address": st, "reward_collector_address": st}}});
+        let r = w.exec(&sc.admin, &sc.q, &upd.to_string(), &[]);
+        acc.seen("C09", &format!("shared-account|{}", r.ok));
+        if r.ok && !ch_now.is_empty() {
+            let who = hook_sender(&ch_now, &st, &t.prefix);
+            for (msg, what) in [(json!({"receive_rewards": {}}), "ReceiveRewards"), (json!({"receive_unstaked_tokens": {"batch_id": 1}}), "ReceiveUnstakedTokens")] {
+                let mut w2 = w.clone();
+                w2.mint_raw(&who, &s, 100);
+                let r2 = w2.exec(&who, &sc.q, &msg.to_string(), &[(s.clone(), 100)]);
+                // (the batch may already be received by an earlier step of this check: only authorisation matters)
+                if !r2.ok && r2.err.to_lowercase().contains("unauthorized") {
+                    out.push(format!("staker and reward collector are the same native account {st}: its hook account {who} was refused for {what}: {}", r2.err));
+                }
+            }
+            acc.count("c09:shared_account");
+        }
+    }
     // an all-upper-case spelling of the native addresses (bech32 allows it). Whatever string the contract
     // then reports as configured is the <native sender> of the derivation: the account of exactly that
     // string is accepted and the account of the other spelling is a different pair, hence rejected.
